@@ -191,6 +191,10 @@ fn lonlat_to_estimate(lonlat: LonLat, resolution: i32) -> Result<A5Cell, String>
 
 /// Get the pentagon shape for a given A5 cell
 pub fn get_pentagon(cell: &A5Cell) -> Result<PentagonShape, String> {
+    if cell.resolution < 0 {
+        return Err("The world cell has no pentagon".to_string());
+    }
+
     let (quintant, orientation) = segment_to_quintant(cell.segment, cell.origin());
 
     if cell.resolution == FIRST_HILBERT_RESOLUTION - 1 {
@@ -214,12 +218,14 @@ pub fn get_pentagon(cell: &A5Cell) -> Result<PentagonShape, String> {
 
 /// Convert A5 cell ID to lon/lat coordinates of cell center
 pub fn cell_to_lonlat(cell: u64) -> Result<LonLat, String> {
+    let cell_data = deserialize(cell)?;
+
     // WORLD_CELL represents the entire world, return (0, 0) as a reasonable default
-    if cell == WORLD_CELL {
+    // (keyed on the decoded resolution, as other bit patterns also decode to the world cell)
+    if cell_data.resolution == -1 {
         return Ok(LonLat::new(0.0, 0.0));
     }
 
-    let cell_data = deserialize(cell)?;
     let pentagon = get_pentagon(&cell_data)?;
     let dodecahedron = DodecahedronProjection::get_thread_local();
     let point = dodecahedron.inverse(pentagon.get_center(), cell_data.origin_id)?;
@@ -248,13 +254,14 @@ pub fn cell_to_boundary(
     cell_id: u64,
     options: Option<CellToBoundaryOptions>,
 ) -> Result<Vec<LonLat>, String> {
-    // WORLD_CELL represents the entire world and is unbounded
-    if cell_id == WORLD_CELL {
-        return Ok(Vec::new());
-    }
-
     let opts = options.unwrap_or_default();
     let cell_data = deserialize(cell_id)?;
+
+    // WORLD_CELL represents the entire world and is unbounded
+    // (keyed on the decoded resolution, as other bit patterns also decode to the world cell)
+    if cell_data.resolution == -1 {
+        return Ok(Vec::new());
+    }
 
     let segments = opts
         .segments
